@@ -5,8 +5,8 @@ from vlib.gens import *
 GROUP = "nt"
 LEAN_PROPS = "Dashu.Props.C13"
 LEAN_AUDIT = "Dashu.Audit.C13"
-GEN_PROPS = ["Dashu.Props.C13Link"]     # round 5: C13 <-> C02 link (multi-word div_rem_in_place), word-level invm
-GEN_AUDIT = ["Dashu.Audit.C13Link"]
+GEN_PROPS = ["Dashu.Props.C13Link", "Dashu.Props.C13Reducer"]     # round 5: C13 <-> C02 link (multi-word div_rem_in_place), word-level invm
+GEN_AUDIT = ["Dashu.Audit.C13Link", "Dashu.Audit.C13Reducer"]
 W = 64
 
 def modulus(rng, tier):
@@ -606,11 +606,16 @@ REFINED = ["ConstDivisor::new (shift)", "ConstSingleDivisor::rem_word/rem_dword/
            "debug_assert_zero!(shr_in_place(modulus)), debug_assert_zero!(shr_in_place(raw)), locate_top_word_plus_one, the cofactor zero-extended in the modulus buffer, "
            "shl_in_place (carry dropped by the code: proved zero), debug_assert!(inv.is_valid(ring)) as ReducedLarge::is_valid on the buffer (length, cmp_same_len(..).is_lt(), "
            "low shift bits zero), negate_in_place on the buffer — proved: on Valid residues no assertion fails and the result is that of round 4's mirrored inv_large "
-           "(inv_large_buffers_all, from the range theorems gcdExtSmall_range / lehmerExt_range and C02's shrInPlace_spec / shlInPlace_spec)"]
+           "(inv_large_buffers_all, from the range theorems gcdExtSmall_range / lehmerExt_range and C02's shrInPlace_spec / shlInPlace_spec)",
+           "round 7, C13<->C01 link for integer/src/modular/reducer.rs (Proofs/NT/ModReducerU.lean, Props/C13Reducer): Reducer<UBig>::check / reduce_once / reduce_negate / add / dbl / sub / neg "
+           "written on C01's mirrored UBig representation (TRepr.add, TRepr.sub with NegativeUBig as an error value, TRepr.shl, TRepr.cmp; the multi-word arms call sub_large, "
+           "sub_large_dword, sub_large_ref_val, cmp_in_place directly; check with its (Large, RefSmall) => true and words[0] & ones_word(shift) arms) — proved for every word size and every "
+           "ring ConstDivisor::new builds: on canonical operands that pass check no UBig subtraction panics, results are canonical and their values are the rAdd / rSub / rNeg of reducer_ops "
+           "(reducer_ubig_link; by import of C01's TRepr.add_spec / sub_ok / shl_spec / cmp_spec). Theorem-level mirror: the driver keeps executing rAdd / rSub / rNeg (no driver change in round 7)"]
 FRONTIER = ["large::pow above the driver's work budget (n^2 * bit_len(exp) > 1.5e5 word operations) is executed with the value-level mul_normalized instead of the buffer-level one "
             "(pow_kernels_all proves both equal on every valid base, so this only bounds the running time of the check); the extended-gcd kernels inside inv_large (C12's gcdExtSmall / lehmerExt) "
-            "run on values, not on the buffers gcd_ext_in_place works in (C12 owns their buffer-level mirror, Proofs/NT/LehmerBuf*); Reducer<UBig>'s add/sub/neg are UBig arithmetic of "
-            "reducer.rs (C01's operators) and appear at their value",
+            "run on values, not on the buffers gcd_ext_in_place works in (C12 owns their buffer-level mirror, Proofs/NT/LehmerBuf*); the representation-level mirror of Reducer<UBig>'s add/dbl/sub/neg "
+            "(round 7, rAddU / rSubU / rNegU over C01's TRepr operators, proved = rAdd / rSub / rNeg by reducer_ubig_link) is not yet the one the driver executes",
             "the `s >= umax::BITS` arm of udouble::shl_u32 and the `self.hi >= rhs` arm of Rem<u128> for udouble are modelled and covered by the theorems "
             "(udoubleRem_spec) but unreachable from invm (quo*t < m*2^128), so Tie B never exercises them",
             "the ptr::eq ring identity is modelled by an instance id (two instances with equal modulus are different rings): a modelling convention, not derivable from source text"]
@@ -662,7 +667,8 @@ LEVEL_TEXT = ("Machine-checked Lean 4 theorems over an executable model that mir
               "fast_rem_by_normalized_word/_dword, PreMulInv*::mul/sqr over the mirrored Moeller-Granlund dividers); the multi-word reductions and products on word buffers "
               "(rem_large, mul_normalized, sqr_normalized, the windowed pow loop) through C01's mirrored multiplication and C02's mirrored Knuth-D / Burnikel-Ziegler division, "
               "with exactness imported from C01's / C02's theorems (W >= 4); the additive operations of multi-word rings (add_in_place, dbl_in_place, sub_in_place(_swap), negate_in_place) "
-              "on buffers through C01's mirrored add/sub word loops with their debug assertions proved never to fail; inv_large through C12's mirrored extended-gcd kernels with the range claim |b| < modulus proved; "
+              "on buffers through C01's mirrored add/sub word loops with their debug assertions proved never to fail; the Reducer<UBig> impl's add/dbl/sub/neg through C01's mirrored UBig operators "
+              "(no NegativeUBig panic on checked operands, canonical results; theorem-level link); inv_large through C12's mirrored extended-gcd kernels with the range claim |b| < modulus proved; "
               "num-modular's invm with machine arithmetic (checked / wrapping u64 / u128, udouble::widening_mul, div_rem_2by1) proved overflow-free and exact for every width. "
               "Decision logic of mul/pow/div and of the buffer mirrors is regenerated from source and proved equal to the model's. The model is tied to /repo on every "
               "run by differential execution against ConstDivisor::reduce, all Reduced operator call forms and the num_modular::Reducer impl.")
@@ -678,5 +684,6 @@ THEOREMS = ["Dashu.Props.C13." + t for t in ["new_spec", "reduce_spec", "ops_clo
             "Dashu.Props.C13Link." + t for t in ["rem_large_exact", "large_divisor_fields", "reduce_kernels_all", "mul_sqr_kernels_all",
             "widening_mul_exact", "udouble_div_rem_2by1_exact", "prim_mulm_exact", "invm_prim_exact", "inv_div_kernels_all",
             "buffer_logic_gen", "rem_large_gen", "mul_normalized_gen", "product_low_gen", "pow_kernels_all",
-            "add_sub_neg_kernels_all", "add_in_place_exact", "add_sub_neg_ops_all", "add_logic_gen", "inv_large_buffers_all"]]
+            "add_sub_neg_kernels_all", "add_in_place_exact", "add_sub_neg_ops_all", "add_logic_gen", "inv_large_buffers_all"]] + [
+            "Dashu.Props.C13Reducer.reducer_ubig_link"]
 READY = True
